@@ -9,6 +9,14 @@
 //     F<b>-<e>  vector.for_each(b, e, cb)        L<b>-<e>  vector.fill_n(b, e-b, v)     P<b>-<e>  vector.copy_n(src, e-b, b)
 //     C         vector.gc()                      A<sec>    let virtual time pass
 //   choices = comma separated replay list for strategy 2
+//   optional 7th field <setup> ('-' = none): whole-object operations executed sequentially BEFORE the threads start, on
+//   vector objects in slots 0..3 (all of the case's block type), ops separated by ',':
+//     D<v>      slot v = new Vec(hint)                  element constructor = T()  (constructor id 1)
+//     N<v>.<k>  slot v = new Vec(hint, functor k)       user-supplied constructor functor (id k >= 2)
+//     G<v>.<i>  slot v ->ensure(i)   (address recorded: must survive every later move / swap)
+//     M<d>.<s>  slot d = new Vec(std::move(*slot s))    A<d>.<s>  *slot d = std::move(*slot s)    X<a>.<b>  swap
+//     K<v>      delete slot v                           T<v>      the threads operate on slot v (default 0)
+//   the monitors line then also carries objs=<per slot bs:blocks:ctor:built-by-per-block:retired>/... nb=.. nk=..
 // stdout: one line per case:
 //   <case-id> ok steps=<n> | <per-op results, blocks numbered by first appearance> blocks=.. bdead=.. tables=.. tfreed=.. rlist=.. | mon=<verdicts> [! first violation]
 // Observation points (no edit of /repo): global operator new/delete replacement (block tables are the cache-line aligned
@@ -42,7 +50,7 @@ static std::string* first_violation;
 static std::function<void()>* sampler;   // looks at _block_table, marks supersede times
 static bool v_ctor = true, v_dtor = true, v_cool = true, v_leak = true, v_snap = true, v_same = true, v_stable = true, v_segs = true;
 static bool stale_push = false;
-static int blocks_created = 0, blocks_dead = 0, tables_created = 0, tables_freed = 0;
+static int blocks_created = 0, blocks_dead = 0, tables_created = 0, tables_freed = 0, blocks_freed_all = 0;
 
 static void note(bool& flag, const std::string& what) {
   flag = false;
@@ -117,7 +125,7 @@ static void tracked_delete(void* p, size_t align) {
     trk::BlockInfo& bi = b->second;
     bi.frees++;
     if (bi.freed) trk::note(trk::v_leak, "block freed twice");
-    bi.freed = true; bi.freed_in_dtor = trk::destructing;
+    bi.freed = true; bi.freed_in_dtor = trk::destructing; trk::blocks_freed_all++;
     if (!trk::destructing) {
       trk::blocks_dead++;
       if (bi.published) trk::note(trk::v_stable, "a block that was visible through a published table was freed while the vector is alive");
@@ -151,6 +159,7 @@ struct alignas(2 * BABYLON_CACHELINE_SIZE) Elem {
   uint64_t magic;
   uint64_t tag;     // identity written by the driver through the references it obtained
   uint64_t fill;    // written by operator= (fill_n / copy_n)
+  uint64_t ctor_id; // which element constructor built it: 1 = T(), k >= 2 = user functor k (set by the functor)
   Elem() {
     if (trk::active && trk::in_block(this)) {
       trk::in_hook++;
@@ -159,7 +168,7 @@ struct alignas(2 * BABYLON_CACHELINE_SIZE) Elem {
       e.ctor++; e.live = true;
       trk::in_hook--;
     }
-    magic = 0xC0FFEE; tag = 0; fill = 0;
+    magic = 0xC0FFEE; tag = 0; fill = 0; ctor_id = 1;
   }
   Elem(const Elem& o) : Elem() { fill = o.fill; }
   ~Elem() {
@@ -183,7 +192,7 @@ struct Op { char k; long long a = 0, b = 0; std::string res; std::vector<std::pa
 
 template <size_t BS>
 static void run_case(const char* id, unsigned long long seed, int strategy, size_t hint, const std::string& prog,
-                     const std::string& choices) {
+                     const std::string& choices, const std::string& setup) {
   using Vec = ConcurrentVector<Elem, BS>;
   std::vector<std::vector<Op>> threads;
   {
@@ -209,18 +218,107 @@ static void run_case(const char* id, unsigned long long seed, int strategy, size
   trk::first_violation = &first_violation; trk::sampler = &sampler;
   trk::v_ctor = trk::v_dtor = trk::v_cool = trk::v_leak = trk::v_snap = trk::v_same = trk::v_stable = trk::v_segs = true;
   trk::stale_push = false; trk::destructing = false; memset(trk::changed_in_op, 0, sizeof trk::changed_in_op);
-  trk::blocks_created = trk::blocks_dead = trk::tables_created = trk::tables_freed = 0;
+  trk::blocks_created = trk::blocks_dead = trk::tables_created = trk::tables_freed = trk::blocks_freed_all = 0;
   std::map<size_t, Elem*> addr_of_index; std::map<Elem*, size_t> index_of_addr;
   void* last_cur = nullptr;
   Vec* vec = nullptr;
   trk::in_hook++;
   trk::active = true;
   trk::in_hook--;
-  vec = (BS == 0) ? new Vec(hint) : new Vec();
-  const size_t bsize = vec->block_size();
   using BT = typename Vec::BlockTable;
-  const void* EMPTY = (const void*)vec->_block_table.B::load(std::memory_order_relaxed);
-  last_cur = (void*)EMPTY;
+  const void* EMPTY = (const void*)&Vec::EMPTY_BLOCK_TABLE;
+  // ---- whole-object phase (sequential): slots, the constructor id each slot carries, the identity of its contents
+  Vec* slots[4] = {nullptr, nullptr, nullptr, nullptr};
+  uint64_t slot_ctor[4] = {0, 0, 0, 0}; int slot_ident[4] = {-1, -1, -1, -1}; int next_ident = 0; int target = 0;
+  std::map<std::pair<int, size_t>, Elem*> recorded;     // (identity of the contents, index) -> address handed out
+  auto new_vec = [&](uint64_t k) -> Vec* {
+    if (k <= 1) return (BS == 0) ? new Vec(hint) : new Vec();
+    auto fn = [k](Elem* p) { new (p) Elem; p->ctor_id = k; };
+    return new Vec(hint, fn);
+  };
+  auto check_recorded = [&](const char* when) {
+    trk::in_hook++;
+    for (auto& kv : recorded) {
+      int holder = -1;
+      for (int v = 0; v < 4; ++v) if (slots[v] && slot_ident[v] == kv.first.first) holder = v;
+      if (holder < 0) continue;                       // contents destroyed with their vector
+      Vec* o = slots[holder]; size_t idx = kv.first.second; Elem* p = kv.second;
+      auto e = elems.find(p);
+      if (idx >= o->size() || &(*o)[idx] != p) trk::note(trk::v_stable, std::string("element address changed across ") + when);
+      else if (e == elems.end() || !e->second.live || p->magic != 0xC0FFEE) trk::note(trk::v_stable, std::string("element no longer constructed after ") + when);
+      else if (p->tag != idx + 1) trk::note(trk::v_stable, std::string("element content changed across ") + when);
+    }
+    trk::in_hook--;
+  };
+  if (setup.empty() || setup == "-") { slots[0] = new_vec(1); slot_ctor[0] = 1; slot_ident[0] = next_ident++; }
+  else {
+   // run under the scheduler (one thread) so that retire() stamps come from the same virtual clock as later
+   std::vector<std::function<void()>> setup_body;
+   setup_body.push_back([&] {
+    std::stringstream ss(setup); std::string o;
+    while (std::getline(ss, o, ',')) {
+      if (o.size() < 2) continue;
+      int a = o[1] - '0'; long long b = 0; size_t dot = o.find('.');
+      if (dot != std::string::npos) b = atoll(o.c_str() + dot + 1);
+      if (a < 0 || a > 3) continue;
+      switch (o[0]) {
+        case 'D': if (!slots[a]) { slots[a] = new_vec(1); slot_ctor[a] = 1; slot_ident[a] = next_ident++; } break;
+        case 'N': if (!slots[a]) { slots[a] = new_vec((uint64_t)b); slot_ctor[a] = (uint64_t)b; slot_ident[a] = next_ident++; } break;
+        case 'G': if (slots[a] && b >= 0) {
+          Elem* p = &slots[a]->ensure((size_t)b);
+          trk::in_hook++;
+          auto e = elems.find(p);
+          if (e == elems.end() || !e->second.live || p->magic != 0xC0FFEE) trk::note(trk::v_ctor, "ensure() returned an element that was never constructed (index " + std::to_string(b) + ")");
+          else {
+            if (p->ctor_id != slot_ctor[a]) trk::note(trk::v_ctor, "element was not built by the constructor its vector was created with");
+            auto key = std::make_pair(slot_ident[a], (size_t)b);
+            if (recorded.count(key) && recorded[key] != p) trk::note(trk::v_same, "index designated two different elements");
+            recorded[key] = p; p->tag = (uint64_t)b + 1;
+          }
+          trk::in_hook--;
+        } break;
+        case 'M': if (!slots[a] && b >= 0 && b < 4 && slots[b] && a != b) {
+          slots[a] = new Vec(std::move(*slots[b]));
+          slot_ctor[a] = slot_ctor[b]; slot_ident[a] = slot_ident[b]; slot_ident[b] = next_ident++;
+          check_recorded("move construction");
+        } break;
+        case 'A': if (slots[a] && b >= 0 && b < 4 && slots[b] && a != b) {
+          *slots[a] = std::move(*slots[b]);
+          std::swap(slot_ctor[a], slot_ctor[b]); std::swap(slot_ident[a], slot_ident[b]);
+          check_recorded("move assignment");
+        } break;
+        case 'X': if (slots[a] && b >= 0 && b < 4 && slots[b] && a != b) {
+          slots[a]->swap(*slots[b]);
+          std::swap(slot_ctor[a], slot_ctor[b]); std::swap(slot_ident[a], slot_ident[b]);
+          check_recorded("swap");
+        } break;
+        case 'K': if (slots[a]) { trk::destructing = true; delete slots[a]; trk::destructing = false; slots[a] = nullptr; slot_ident[a] = -1; } break;
+        case 'T': target = a; break;
+      }
+    }
+   });
+   verif::Options sopt; sopt.seed = 1; sopt.strategy = 0; sopt.max_steps = 200000;
+   verif::run(setup_body, sopt);
+  }
+  if (!slots[target]) { for (int v = 0; v < 4; ++v) if (slots[v]) { target = v; break; } }
+  if (!slots[target]) { slots[target] = new_vec(1); slot_ctor[target] = 1; slot_ident[target] = next_ident++; }
+  vec = slots[target];
+  const uint64_t want_ctor = slot_ctor[target];
+  const size_t bsize = vec->block_size();
+  // the threads start from what the whole-object phase left in the target: its table is current, its blocks published,
+  // the addresses recorded for its contents are the reference for every later request of the same index
+  last_cur = (void*)vec->_block_table.B::load(std::memory_order_relaxed);
+  {
+    trk::in_hook++;
+    auto it = tables.find(last_cur);
+    if (it != tables.end()) {
+      it->second.ever_current = true;
+      BT* bt = (BT*)last_cur;
+      for (size_t i = 0; i < bt->size; ++i) { auto b = blocks.find((void*)bt->blocks[i]); if (b != blocks.end()) b->second.published = true; }
+    }
+    for (auto& kv : recorded) if (kv.first.first == slot_ident[target]) { addr_of_index[kv.first.second] = kv.second; index_of_addr[kv.second] = kv.first.second; }
+    trk::in_hook--;
+  }
   uint64_t empty_sup_ns = 0; bool empty_sup = false;
   // called (with in_hook set) at every allocation / free / op boundary: a successful _block_table CAS is followed by
   // `new Node` before the next scheduling point, so every published table is seen here at the instant it is published
@@ -252,6 +350,7 @@ static void run_case(const char* id, unsigned long long seed, int strategy, size
     trk::in_hook++;
     auto e = elems.find(p);
     if (e == elems.end() || !e->second.live || p->magic != 0xC0FFEE) trk::note(trk::v_ctor, "reference to an element that is not (or no longer) constructed was returned for index " + std::to_string(index));
+    else if (p->ctor_id != want_ctor) trk::note(trk::v_ctor, "element of index " + std::to_string(index) + " was not built by the constructor its vector carries");
     else {
       auto a = addr_of_index.find(index);
       if (a == addr_of_index.end()) {
@@ -404,11 +503,43 @@ static void run_case(const char* id, unsigned long long seed, int strategy, size
   snprintf(stats, sizeof stats, " blocks=%d bdead=%d tables=%d tfreed=%d rlist=%d", trk::blocks_created, trk::blocks_dead,
            trk::tables_created, trk::tables_freed, rlist);
   out += stats;
-  // the vector dies
+  // what the whole-object phase + the threads left in every slot
+  check_recorded("the concurrent phase");
+  std::string objs;
+  {
+    using Node = typename internal::concurrent_vector::RetireList<BT, typename Vec::BlockTableDeleter>::Node;
+    trk::in_hook++;
+    for (int v = 0; v < 4; ++v) {
+      if (v) objs += "/";
+      Vec* o = slots[v];
+      if (!o) { objs += "-"; continue; }
+      BT* bt = o->_block_table.B::load(std::memory_order_relaxed);
+      size_t obs = o->block_size();
+      objs += std::to_string(obs) + ":" + std::to_string(bt->size) + ":" + std::to_string((bool)o->_constructor ? slot_ctor[v] : 0) + ":";
+      for (size_t i = 0; i < bt->size; ++i) {
+        Elem* blk = bt->blocks[i]; long id = -2;
+        for (size_t k = 0; k < obs; ++k) {
+          auto e = elems.find(blk + k);
+          long here = (e != elems.end() && e->second.live && blk[k].magic == 0xC0FFEE) ? (long)blk[k].ctor_id : 0;
+          if (id == -2) id = here; else if (id != here) id = -1;
+        }
+        if (id > 0 && (uint64_t)id != slot_ctor[v]) trk::note(trk::v_ctor, "a block of a vector was not built by the constructor the vector carries");
+        if (id == 0) trk::note(trk::v_ctor, "a published block holds elements that were never constructed");
+        objs += (i ? "." : "") + (id == -1 ? std::string("!") : std::to_string(id));
+      }
+      int rl = 0; uint64_t h = o->_retire_list._head.B::load(std::memory_order_relaxed);
+      Node* n = (Node*)(h & 0x0000FFFFFFFFFFFFull);
+      while (n && rl < 100000) { rl++; n = n->next; }
+      objs += ":" + std::to_string(rl);
+    }
+    objs += ",nb=" + std::to_string(trk::blocks_created) + ",nk=" + std::to_string(trk::blocks_freed_all);
+    trk::in_hook--;
+  }
+  // the vectors die
   size_t live_before = 0;
   for (auto& e : elems) live_before += e.second.live;
   trk::destructing = true;
-  delete vec;
+  for (int v = 0; v < 4; ++v) if (slots[v]) { delete slots[v]; slots[v] = nullptr; }
   for (auto& e : elems) {
     if (e.second.live) trk::note(trk::v_dtor, "an element was never destroyed");
     if (e.second.ctor != 1) trk::note(trk::v_ctor, "an element was constructed " + std::to_string(e.second.ctor) + " times");
@@ -420,14 +551,18 @@ static void run_case(const char* id, unsigned long long seed, int strategy, size
   }
   for (auto& tb : tables)
     if (tb.second.frees != 1) trk::note(trk::v_leak, "a block table was freed " + std::to_string(tb.second.frees) + " times");
-  if (elems.size() != (size_t)trk::blocks_created * bsize) trk::note(trk::v_ctor, "number of constructed elements differs from blocks x block_size");
+  {
+    size_t want = 0;
+    for (auto& b : blocks) want += b.second.size / sizeof(Elem);
+    if (elems.size() != want) trk::note(trk::v_ctor, "number of constructed elements differs from the capacity of the blocks created");
+  }
   trk::in_hook++;
   trk::active = false;
   for (void* p : quarantine) free(p);
   trk::in_hook--;
-  printf("%s ok steps=%llu | %s | same=%d stable=%d ctor=%d dtor=%d cool=%d snap=%d leak=%d segs=%d stale=%d%s%s\n", id,
+  printf("%s ok steps=%llu | %s | same=%d stable=%d ctor=%d dtor=%d cool=%d snap=%d leak=%d segs=%d stale=%d objs=%s%s%s\n", id,
          (unsigned long long)r.steps, out.c_str(), trk::v_same, trk::v_stable, trk::v_ctor, trk::v_dtor, trk::v_cool, trk::v_snap,
-         trk::v_leak, trk::v_segs, trk::stale_push ? 1 : 0, first_violation.empty() ? "" : " ! ", first_violation.c_str());
+         trk::v_leak, trk::v_segs, trk::stale_push ? 1 : 0, objs.c_str(), first_violation.empty() ? "" : " ! ", first_violation.c_str());
   fflush(stdout);
   (void)live_before; (void)empty_sup; (void)empty_sup_ns;
 }
@@ -435,17 +570,17 @@ static void run_case(const char* id, unsigned long long seed, int strategy, size
 int main() {
   static char line[1 << 16];
   while (fgets(line, sizeof line, stdin)) {
-    char id[64], block[32]; static char prog[30000], choices[30000];
+    char id[64], block[32]; static char prog[30000], choices[30000], setup[30000];
     unsigned long long seed; int strategy;
-    choices[0] = 0;
-    int n = sscanf(line, "%63s %llu %d %31s %29999s %29999s", id, &seed, &strategy, block, prog, choices);
+    choices[0] = 0; setup[0] = 0;
+    int n = sscanf(line, "%63s %llu %d %31s %29999s %29999s %29999s", id, &seed, &strategy, block, prog, choices, setup);
     if (n < 5) continue;
     size_t v = (size_t)atoll(block + 1);
-    if (block[0] == 'd') run_case<0>(id, seed, strategy, v, prog, choices);
-    else if (v == 1) run_case<1>(id, seed, strategy, v, prog, choices);
-    else if (v == 2) run_case<2>(id, seed, strategy, v, prog, choices);
-    else if (v == 4) run_case<4>(id, seed, strategy, v, prog, choices);
-    else run_case<8>(id, seed, strategy, v, prog, choices);
+    if (block[0] == 'd') run_case<0>(id, seed, strategy, v, prog, choices, setup);
+    else if (v == 1) run_case<1>(id, seed, strategy, v, prog, choices, setup);
+    else if (v == 2) run_case<2>(id, seed, strategy, v, prog, choices, setup);
+    else if (v == 4) run_case<4>(id, seed, strategy, v, prog, choices, setup);
+    else run_case<8>(id, seed, strategy, v, prog, choices, setup);
   }
   return 0;
 }
